@@ -79,7 +79,27 @@ type cell struct {
 	v    uint64
 	gid  int
 	idx  int
-	b    bool // value is a bool
+	b    bool     // value is a bool
+	ch   *chanObj // kChan
+}
+
+// chanObj is an unbuffered channel: a send completes when a receiver has taken the value.
+type chanObj struct {
+	hasSend bool
+	val     uint64
+}
+
+// world runs the routines of one program as coroutines: exactly one executes at any moment, the scheduler
+// resumes them round-robin and a routine gives control back only where it would block (send / receive) or
+// when it ends. With one sender and one receiver per channel and no select the streams do not depend on
+// the schedule; the fixed schedule makes the stopping points (budgets) reproducible as well.
+type world struct {
+	rts      []*interp
+	back     chan struct{}
+	abort    bool
+	progress int
+	err      error
+	panicked any
 }
 
 type scope struct {
@@ -119,6 +139,9 @@ type interp struct {
 	vars   map[string]bool
 	ret    []uint64
 	rd     refReading
+	w      *world
+	wake   chan struct{}
+	done   bool
 }
 
 func fail(format string, a ...any) { panic(refErr{fmt.Sprintf(format, a...)}) }
@@ -141,7 +164,8 @@ func RefEvalAs(src string, rsize int, inVals []uint64, bud refBudget, rd refRead
 	if perr != nil {
 		return res, perr
 	}
-	it := &interp{funcs: map[string]*ast.FuncDecl{}, inVals: inVals, bud: bud, vars: map[string]bool{}, rd: rd}
+	w := &world{back: make(chan struct{})}
+	it := &interp{funcs: map[string]*ast.FuncDecl{}, inVals: inVals, bud: bud, vars: map[string]bool{}, rd: rd, w: w}
 	if rsize >= 64 {
 		it.mask = ^uint64(0)
 	} else {
@@ -152,49 +176,161 @@ func RefEvalAs(src string, rsize int, inVals []uint64, bud refBudget, rd refRead
 			it.funcs[fd.Name.Name] = fd
 		}
 	}
-	defer func() {
-		if r := recover(); r != nil {
-			if e, ok := r.(refErr); ok {
-				err = e
-				return
-			}
-			panic(r)
-		}
-	}()
 	if it.funcs["main"] == nil {
 		return res, refErr{"no main"}
 	}
-	queue := []string{"main"}
-	for i := 0; i < len(queue); i++ {
-		rr := RoutineRes{Func: queue[i], Streams: map[int][]uint64{}, Gids: map[int]int{}, InGids: map[int]int{}, Inner: map[int]bool{}}
-		it.cur = &rr
-		it.nOut, it.nIn = 0, 0
-		it.goList = nil
-		it.runRoutine(it.funcs[queue[i]])
-		res.Routines = append(res.Routines, rr)
-		if i == 0 {
-			queue = append(queue, it.goList...)
-		} else if len(it.goList) > 0 {
-			return res, refErr{"go statement outside main"}
+	w.spawn(it, it.funcs["main"], nil)
+	// the scheduler: resume every live routine in turn until all have ended or a whole round passes in which
+	// nobody did anything (every live routine waits on a channel whose other end will never come)
+	for w.err == nil && w.panicked == nil {
+		progressed, alive := false, false
+		for i := 0; i < len(w.rts) && w.err == nil && w.panicked == nil; i++ { // (the list grows at go statements)
+			rt := w.rts[i]
+			if rt.done {
+				continue
+			}
+			alive = true
+			before := w.progress
+			w.resume(rt)
+			if w.progress != before || rt.done {
+				progressed = true
+			}
 		}
+		if !alive || !progressed {
+			break
+		}
+	}
+	w.abort = true
+	for _, rt := range w.rts {
+		if !rt.done {
+			w.resume(rt)
+		}
+	}
+	if w.panicked != nil {
+		panic(w.panicked)
+	}
+	for _, rt := range w.rts {
+		res.Routines = append(res.Routines, *rt.cur)
+	}
+	if w.err != nil {
+		return res, w.err
 	}
 	res.Vars = len(it.vars)
 	return res, nil
 }
 
-func (it *interp) runRoutine(fd *ast.FuncDecl) {
-	defer func() {
-		if r := recover(); r != nil {
-			if _, ok := r.(stopEval); ok {
-				it.cur.Stopped = "budget"
-				return
+func (w *world) resume(rt *interp) {
+	rt.wake <- struct{}{}
+	<-w.back
+}
+
+// spawn adds a routine (main, or the target of a go statement with its evaluated arguments) and parks it.
+func (w *world) spawn(proto *interp, fd *ast.FuncDecl, args []*cell) {
+	rt := *proto // configuration and the shared tables; the per-routine state starts empty
+	rt.cur = &RoutineRes{Func: fd.Name.Name, Streams: map[int][]uint64{}, Gids: map[int]int{}, InGids: map[int]int{}, Inner: map[int]bool{}}
+	rt.nOut, rt.nIn, rt.depth, rt.ret, rt.goList, rt.done = 0, 0, 0, nil, nil, false
+	rt.wake = make(chan struct{})
+	w.rts = append(w.rts, &rt)
+	go func() {
+		<-rt.wake
+		defer func() {
+			if r := recover(); r != nil {
+				switch e := r.(type) {
+				case stopEval:
+					if rt.cur.Stopped == "" {
+						rt.cur.Stopped = "budget"
+					}
+				case refErr:
+					if w.err == nil {
+						w.err = e
+					}
+				default:
+					w.panicked = r
+				}
 			}
-			panic(r)
+			rt.done = true
+			w.back <- struct{}{}
+		}()
+		if w.abort {
+			rt.cur.Stopped = "not-started"
+			panic(stopEval{})
 		}
+		rt.runRoutine(fd, args)
 	}()
+}
+
+// yield gives control back to the scheduler; the routine continues when it is resumed.
+func (it *interp) yield() {
+	it.w.back <- struct{}{}
+	<-it.wake
+	if it.w.abort {
+		it.cur.Stopped = "blocked"
+		panic(stopEval{})
+	}
+}
+
+func paramNames(fd *ast.FuncDecl) (names []string, isChan []bool) {
+	if fd.Type.Params == nil {
+		return
+	}
+	for _, p := range fd.Type.Params.List {
+		_, ch := p.Type.(*ast.ChanType)
+		if _, val := p.Type.(*ast.Ident); !ch && !val {
+			fail("parameter type of %s", fd.Name.Name)
+		}
+		for _, n := range p.Names {
+			names = append(names, n.Name)
+			isChan = append(isChan, ch)
+		}
+	}
+	return
+}
+
+// bindArgs evaluates the arguments of a call or go statement in the caller's scope: a channel parameter
+// shares the caller's channel, every other parameter gets the value.
+func (it *interp) bindArgs(fd *ast.FuncDecl, args []ast.Expr, sc *scope) (names []string, cells []*cell) {
+	names, isChan := paramNames(fd)
+	if len(names) != len(args) {
+		fail("call arity")
+	}
+	for i, a := range args {
+		if isChan[i] {
+			id, ok := a.(*ast.Ident)
+			if !ok {
+				fail("channel argument is not a name")
+			}
+			c := sc.lookup(id.Name)
+			if c == nil || c.kind != kChan || c.ch == nil {
+				fail("channel argument %s", id.Name)
+			}
+			cells = append(cells, &cell{kind: kChan, ch: c.ch})
+			continue
+		}
+		cells = append(cells, &cell{kind: kVal, v: it.expr(a, sc)})
+	}
+	return
+}
+
+func (it *interp) chanOf(e ast.Expr, sc *scope) *chanObj {
+	id, ok := e.(*ast.Ident)
+	if !ok {
+		fail("channel operand is not a name")
+	}
+	c := sc.lookup(id.Name)
+	if c == nil || c.kind != kChan || c.ch == nil {
+		fail("channel operation on %s", id.Name)
+	}
+	return c.ch
+}
+
+func (it *interp) runRoutine(fd *ast.FuncDecl, args []*cell) {
 	sc := &scope{vars: map[string]*cell{}}
-	if fd.Type.Params != nil && len(fd.Type.Params.List) > 0 {
-		fail("routine %s has parameters", fd.Name.Name)
+	names, _ := paramNames(fd)
+	if len(names) != len(args) {
+		fail("routine %s: %d parameters, %d arguments", fd.Name.Name, len(names), len(args))
+	}
+	for i, n := range names {
+		sc.vars[n] = args[i]
 	}
 	it.block(fd.Body, sc)
 	it.cur.Stopped = "returned"
@@ -202,6 +338,7 @@ func (it *interp) runRoutine(fd *ast.FuncDecl) {
 
 func (it *interp) tick() {
 	it.cur.Evals++
+	it.w.progress++
 	if it.cur.Evals > it.bud.MaxEvals {
 		panic(stopEval{})
 	}
@@ -273,7 +410,7 @@ func (it *interp) stmt(s ast.Stmt, sc *scope) ctrl {
 							it.declare(sc, n.Name, &cell{kind: kVal})
 						}
 					case *ast.ChanType:
-						it.declare(sc, n.Name, &cell{kind: kChan})
+						it.declare(sc, n.Name, &cell{kind: kChan, ch: &chanObj{}})
 					default:
 						fail("unsupported var type")
 					}
@@ -544,10 +681,21 @@ func (it *interp) stmt(s ast.Stmt, sc *scope) ctrl {
 		if !ok || it.funcs[id.Name] == nil {
 			fail("go of unknown function")
 		}
-		if len(x.Call.Args) != 0 {
-			fail("go with arguments is not modelled")
+		if it != it.w.rts[0] {
+			fail("go statement outside main")
 		}
-		it.goList = append(it.goList, id.Name)
+		_, cells := it.bindArgs(it.funcs[id.Name], x.Call.Args, sc)
+		it.w.spawn(it, it.funcs[id.Name], cells)
+	case *ast.SendStmt:
+		ch := it.chanOf(x.Chan, sc)
+		v := it.expr(x.Value, sc)
+		if ch.hasSend {
+			fail("two senders on one channel")
+		}
+		ch.hasSend, ch.val = true, v
+		for ch.hasSend { // until a receiver has taken it
+			it.yield()
+		}
 	default:
 		fail("unsupported statement %T", s)
 	}
@@ -615,6 +763,17 @@ func (it *interp) expr(e ast.Expr, sc *scope) uint64 {
 			fail("use of %s as a value", x.Name)
 		}
 		return c.v
+	case *ast.UnaryExpr:
+		if x.Op != token.ARROW {
+			fail("unsupported unary operator %s", x.Op)
+		}
+		ch := it.chanOf(x.X, sc)
+		for !ch.hasSend {
+			it.yield()
+		}
+		ch.hasSend = false
+		it.w.progress++
+		return ch.val
 	case *ast.BinaryExpr:
 		a := it.expr(x.X, sc)
 		b := it.expr(x.Y, sc)
@@ -676,22 +835,9 @@ func (it *interp) call(ce *ast.CallExpr, sc *scope) []uint64 {
 	}
 	defer func() { it.depth-- }()
 	fsc := &scope{vars: map[string]*cell{}}
-	var names []string
-	if fd.Type.Params != nil {
-		for _, p := range fd.Type.Params.List {
-			if _, ok := p.Type.(*ast.Ident); !ok {
-				fail("non-value parameter in a called function")
-			}
-			for _, n := range p.Names {
-				names = append(names, n.Name)
-			}
-		}
-	}
-	if len(names) != len(ce.Args) {
-		fail("call arity")
-	}
-	for i, a := range ce.Args {
-		fsc.vars[names[i]] = &cell{kind: kVal, v: it.expr(a, sc)}
+	names, cells := it.bindArgs(fd, ce.Args, sc)
+	for i, n := range names {
+		fsc.vars[n] = cells[i]
 	}
 	savedOut, savedIn := it.nOut, it.nIn
 	c := it.block(fd.Body, fsc)
